@@ -11,6 +11,10 @@ Clauses (per generated case, value-first):
                 after any sequence of rejected serialize()/deserialize() calls on the same long-lived codec object (unset variable
                 late in the body, unknown block, out-of-range value, wrong Multiple count; truncated / unknown-number datagrams),
                 a conformant message still encodes to the reference bytes and decodes to its values
+  instance-independent
+                after a second serializer / LLSD serializer / TemplateDictionary has been built from a DIFFERENT template file through the
+                documented message_template= constructors (an unknown message, and a known name with another layout), the default
+                codec objects -- those created before and those created afterwards -- still encode and decode the stock messages
 """
 from __future__ import annotations
 
@@ -288,6 +292,68 @@ def check_history(part: Part, gen: msggen.Gen, name: str, ser, de_eager, de_lazy
                 part.mark_nontrivial(("hist", name, tuple(raised), case["flags"]))
 
 
+ALT_TEMPLATE = """version 2.0
+
+{
+	OtherGridMsg Low 1 NotTrusted Unencoded
+	{
+		Data Single
+		{	A	U32	}
+	}
+}
+
+{
+	StartPingCheck High 1 NotTrusted Unencoded
+	{
+		PingID Single
+		{	PingID	U8	}
+		{	Extra	U32	}
+	}
+}
+"""
+
+
+def check_other_template(part: Part, gen: msggen.Gen, ser, de_eager, de_lazy):
+    """Builds codec objects from another template, uses them, then re-checks the stock messages on the default objects."""
+    import io
+    from hippolyzer.lib.base.message.llsd_msg_serializer import LLSDMessageSerializer
+    from hippolyzer.lib.base.message.message import Block, Message
+    from hippolyzer.lib.base.message.template_dict import TemplateDictionary
+    pre = []
+    for label, build in (("UDPMessageSerializer(message_template=)", lambda: UDPMessageSerializer(message_template=io.StringIO(ALT_TEMPLATE))),
+                         ("LLSDMessageSerializer(message_template=)", lambda: LLSDMessageSerializer(message_template=io.StringIO(ALT_TEMPLATE))),
+                         ("TemplateDictionary(message_template=)", lambda: TemplateDictionary(message_template=io.StringIO(ALT_TEMPLATE)))):
+        try:
+            obj = build()
+            if isinstance(obj, UDPMessageSerializer):
+                obj.serialize(Message("OtherGridMsg", Block("Data", A=5), packet_id=1))
+                obj.serialize(Message("StartPingCheck", Block("PingID", PingID=5, Extra=7), packet_id=1))
+            pre.append("other:" + label)
+        except Exception:
+            part.count("other_template_constructor_unavailable")
+    if not pre:
+        return
+    s_e = Settings()
+    s_e.ENABLE_DEFERRED_PACKET_PARSING = False
+    codecs = [("old", ser, de_eager, de_lazy),
+              ("new", UDPMessageSerializer(), UDPMessageDeserializer(settings=s_e), UDPMessageDeserializer(settings=Settings()))]
+    for which, s2, e2, l2 in codecs:
+        for name in msggen.HEADER_BASIS:
+            tmpl = gen.templates[name]
+            sub = Part()
+            try:
+                case = {"name": name, "flags": 0, "packet_id": 4, "acks": (), "extra": b"", "blocks": gen.blocks(tmpl, 1, {}), "tag": "other-" + which}
+                check_case(sub, gen, case, s2, e2, l2)
+            except Exception as e:   # the generator itself consults the library's default dictionary for variable kinds
+                sub.violation("roundtrip", f"{name}:default-dictionary", {}, f"the default template dictionary no longer serves {name}: {e!r}")
+            part.count("evaluations")
+            part.count("other_template_cases")
+            for v in sub.viol.values():
+                part.violation("instance-independent", f"{name}:{which}-default-codec:after-other-template", {"kind": "other-template", "seed": gen.seed},
+                               f"after {pre}: {v['clause']} @ {v['site']}: {v['detail']}")
+            part.mark_nontrivial(("other-template", which, name))
+
+
 def _work(names: List[str]):
     gen = _G
     part = Part()
@@ -297,6 +363,9 @@ def _work(names: List[str]):
     de_eager = UDPMessageDeserializer(settings=s_e)
     de_lazy = UDPMessageDeserializer(settings=Settings())
     for name in names:
+        if name == "@other-template":
+            check_other_template(part, gen, ser, de_eager, de_lazy)
+            continue
         if name.startswith("@sweep:"):
             for c in gen.count_sweep(name[7:]):
                 check_case(part, gen, c, ser, de_eager, de_lazy)
@@ -328,15 +397,19 @@ def run(run: Run):
     names = list(_G.templates)
     if len(names) < 480:
         raise RuntimeError("reference template parse found too few templates")
-    units = [[n] for n in names] + [["@hdr:" + n] for n in msggen.HEADER_BASIS]
+    units = [[n] for n in names] + [["@hdr:" + n] for n in msggen.HEADER_BASIS] 
     if not _QUICK:  # every repeat count 0..255 on the basis templates that have Variable blocks
         units += [["@sweep:" + n] for n in msggen.HEADER_BASIS if any(b.kind == "Variable" for b in _G.templates[n].blocks)]
     for d in pmap(_work, units, run.jobs):
         run.merge(d)
+    # in a process of its own: if the property is broken here the damage is process-wide and must not leak into the other units
+    import multiprocessing as mp
+    with mp.get_context("fork").Pool(1) as pool:
+        run.merge(pool.apply(_work, (["@other-template"],)))
     run.rule = ("for each of the %d templates: value rows 0..L-1 (row k gives every variable the k-th element of its wire-type alphabet, "
                 "so every alphabet element of every variable occurs) x each-choice header variants; Variable-block counts {0,2,255} + mixed "
                 "counts; every trailing-block omission; full header cross product (16 flag subsets x 3 ids x 4 ack lists x 4 extras) on %d basis "
-                "templates%s; thorough adds every repeat count 0..255 on the basis templates and 65535-byte Variable-2 fields; default-fill: all variables unset + each single variable unset per template + exactly one block (first/middle/last) of each repeated block list marked; codec histories: a conformant message (plain and zero-coded) after each of up to 7 kinds of rejected serialize/deserialize call and after all of them in a row on the same serializer/deserializer objects. distinct_nontrivial = distinct "
+                "templates%s; thorough adds every repeat count 0..255 on the basis templates and 65535-byte Variable-2 fields; default-fill: all variables unset + each single variable unset per template + exactly one block (first/middle/last) of each repeated block list marked; a second codec built from a different template file through the message_template= constructors, then the stock basis messages on old and new default codec objects; codec histories: a conformant message (plain and zero-coded) after each of up to 7 kinds of rejected serialize/deserialize call and after all of them in a row on the same serializer/deserializer objects. distinct_nontrivial = distinct "
                 "(template, ack/zerocode flags, block counts, row/variant tag) combinations" %
                 (len(names), len(msggen.HEADER_BASIS), " (255-ack / 255-extra rows dropped in quick tier)" if _QUICK else ""))
     run.assumptions += [
@@ -356,7 +429,9 @@ def replay(w):
     s_e.ENABLE_DEFERRED_PACKET_PARSING = False
     de_eager = UDPMessageDeserializer(settings=s_e)
     de_lazy = UDPMessageDeserializer(settings=Settings())
-    if w["kind"] == "fill":
+    if w["kind"] == "other-template":
+        check_other_template(part, gen, ser, de_eager, de_lazy)
+    elif w["kind"] == "fill":
         check_fill(part, gen, w["name"], ser, de_eager)
     elif w["kind"] == "fillmix":
         check_fill_mixed(part, gen, w["name"], ser, de_eager)
